@@ -376,9 +376,9 @@ def m_num(ctx):
     raise MirError(f'no model for integer op {ty}::{op}')
 
 
-@model(r'^<(u8|u16|u32|u64|u128|usize|i8|i16|i32|i64|i128|isize|bool|char) as (PartialEq|PartialOrd|Ord)(<.*>)?>::(eq|ne|lt|le|gt|ge|cmp|partial_cmp|min|max)$')
+@model(r'^<(u8|u16|u32|u64|u128|usize|i8|i16|i32|i64|i128|isize|bool|char) as ([\w:]+::)?(PartialEq|PartialOrd|Ord)(<.*>)?>::(eq|ne|lt|le|gt|ge|cmp|partial_cmp|min|max)$')
 def m_scalar_cmp(ctx):
-    m = re.match(r'^<(\w+) as \w+(<.*>)?>::(\w+)$', ctx.callee)
+    m = re.match(r'^<(\w+) as [\w:]+(<.*>)?>::(\w+)$', ctx.callee)
     ty, op = m.group(1), m.group(3)
     a, b = (ctx.ex.deref_val(ctx.st, x) for x in ctx.args[:2])
     return [(None, scalar_cmp(ctx.ex, op, a, b, ty in SIGNED))]
@@ -401,7 +401,27 @@ def scalar_cmp(ex, op, a, b, signed=False):
     raise MirError('cmp op ' + op)
 
 
-@model(r'^<.+ as (PartialEq|PartialOrd|Ord|Eq)(<.*>)?>::(eq|ne|lt|le|gt|ge|cmp|partial_cmp|min|max)$')
+@model(r'^(std::cmp::|core::cmp::)?Ordering::(reverse|is_eq|is_ne|is_lt|is_le|is_gt|is_ge|then)$|^<(std::cmp::|core::cmp::)?Ordering as ([\w:]+::)?PartialEq>::(eq|ne)$')
+def m_ordering(ctx):
+    ex, st = ctx.ex, ctx.st
+    op = ctx.callee.rsplit('::', 1)[1]
+    a = ex.deref_val(st, ctx.args[0])
+    da = ex.discr_value(st, a)
+    if op == 'reverse':
+        o = Obj('std::cmp::Ordering'); o.discr = -da
+        return [(None, o)]
+    if op in ('eq', 'ne'):
+        db = ex.discr_value(st, ex.deref_val(st, ctx.args[1]))
+        return [(None, (da == db) if op == 'eq' else (da != db))]
+    if op == 'then':
+        db = ex.discr_value(st, ex.deref_val(st, ctx.args[1]))
+        o = Obj('std::cmp::Ordering'); o.discr = z3.If(da == 0, db, da)
+        return [(None, o)]
+    zero = z3.BitVecVal(0, 64)
+    return [(None, {'is_eq': da == zero, 'is_ne': da != zero, 'is_lt': da < zero, 'is_le': da <= zero, 'is_gt': da > zero, 'is_ge': da >= zero}[op])]
+
+
+@model(r'^<.+ as ([\w:]+::)?(PartialEq|PartialOrd|Ord|Eq)(<.*>)?>::(eq|ne|lt|le|gt|ge|cmp|partial_cmp|min|max)$')
 def m_generic_cmp(ctx):
     """scalar-represented newtypes and byte arrays; anything else falls through to the crate's own impl (or havoc)"""
     ex, st = ctx.ex, ctx.st
@@ -997,6 +1017,12 @@ def bytes_obj(bv):
     return o
 
 
+@model(r'^(std::iter::|core::iter::)?once::<.*>$|^(std::iter::|core::iter::)?empty::<.*>$')
+def m_iter_once(ctx):
+    o = Obj('Iter', kind='iter'); o.attrs['src'] = new_vec('Vec', list(ctx.args[:1])); o.attrs['pos'] = 0; o.attrs['mode'] = 'val'
+    return [(None, o)]
+
+
 @model(r'as IntoIterator>::into_iter$')
 def m_into_iter(ctx):
     ex, st = ctx.ex, ctx.st
@@ -1088,6 +1114,20 @@ def m_iter_adapt(ctx):
         for i in range(it.attrs['pos'], len(src.attrs['items'])):
             pairs.append((z3.BitVecVal(i - it.attrs['pos'], 64), Ref(('elem', src, i)) if it.attrs['mode'] == 'ref' else src.attrs['items'][i]))
         o = Obj('Iter', kind='iter'); o.attrs['src'] = new_vec('Vec', pairs); o.attrs['pos'] = 0; o.attrs['mode'] = 'val'
+        return [(None, o)]
+    if op in ('chain', 'zip'):
+        other = ex.deref_val(st, ctx.args[1])
+        if not isinstance(other, Obj) or other.kind not in ('iter', 'range'):
+            raise MirError(f'{op} with unmodelled iterator {other!r}')
+        xs, ys = drain_iter(ex, st, it), drain_iter(ex, st, other)
+        o = Obj('Iter', kind='iter'); o.attrs['src'] = new_vec('Vec', xs + ys if op == 'chain' else list(zip(xs, ys))); o.attrs['pos'] = 0; o.attrs['mode'] = 'val'
+        return [(None, o)]
+    if op in ('take', 'skip'):
+        n = z3.simplify(ctx.args[1])
+        if not z3.is_bv_value(n):
+            raise MirError(f'{op} with symbolic count')
+        xs = drain_iter(ex, st, it)
+        o = Obj('Iter', kind='iter'); o.attrs['src'] = new_vec('Vec', xs[:n.as_long()] if op == 'take' else xs[n.as_long():]); o.attrs['pos'] = 0; o.attrs['mode'] = 'val'
         return [(None, o)]
     raise MirError('iterator adaptor ' + op)
 
@@ -1327,7 +1367,10 @@ def m_map(ctx):
             mm.attrs['items'][idx] = (mm.attrs['items'][idx][0], s2.tr(val))
             return some(old) if not is_set else z3.BoolVal(False)
         def missing(s2):
-            mm = s2.tr(m); mm.attrs['items'].append((s2.tr(key), s2.tr(val)))
+            mm = s2.tr(m)
+            if kind.startswith('BTree') and mm.attrs['items']:
+                mm.attrs['unsorted'] = True      # appended at the end: key order no longer reflected by the list
+            mm.attrs['items'].append((s2.tr(key), s2.tr(val)))
             return none() if not is_set else z3.BoolVal(True)
         return map_lookup_alts(ex, st, m, key, found, missing)
     if op in ('remove', 'swap_remove', 'shift_remove'):
@@ -1336,8 +1379,19 @@ def m_map(ctx):
             mm = s2.tr(m); k, v = mm.attrs['items'].pop(idx)
             return some(v) if not is_set else z3.BoolVal(True)
         return map_lookup_alts(ex, st, m, key, found, none() if not is_set else z3.BoolVal(False))
+    if op in ('first_key_value', 'last_key_value', 'pop_first', 'pop_last', 'first', 'last'):
+        if kind.startswith('BTree') and m.attrs.get('unsorted'):
+            raise MirError('ordered access to a BTreeMap after a symbolic-key insert')
+        if not items:
+            return [(None, none())]
+        i = 0 if 'first' in op else len(items) - 1
+        if op.startswith('pop'):
+            k_, v_ = items.pop(i); return [(None, some((k_, v_)))]
+        if is_set:
+            return [(None, some(Ref(('mapkv', m, i, 0))))]
+        return [(None, some((Ref(('mapkv', m, i, 0)), Ref(('mapkv', m, i, 1)))))]
     if op in ('iter', 'iter_mut', 'keys', 'values', 'values_mut', 'into_keys', 'into_values', 'drain'):
-        if kind.startswith('BTree') and len(items) > 1:
+        if kind.startswith('BTree') and m.attrs.get('unsorted') and len(items) > 1:
             sort_map(ex, st, m)
         it = Obj('Iter', kind='iter'); it.attrs['src'] = m; it.attrs['pos'] = 0
         it.attrs['mode'] = 'ref' if not op.startswith('into_') and op != 'drain' else 'val'
